@@ -74,7 +74,7 @@ Proof. exact failed_round_status. Qed.
 Theorem C04_terminal_status : forall l any_empty, terminal (get_status (reduce_o l) any_empty) = true.
 Proof. exact get_status_terminal. Qed.
 
-(* Executor (closing logic of StreamFlowExecutor as repaired by the fix: commit): whichever way the output loop
+(* Executor (closing logic of StreamFlowExecutor as repaired by the fix: commit 7a62372): whichever way the output loop
    ends — a FAILED/CANCELLED termination token on an output port (_cancel) or the last port terminating
    (close) — no step is left unterminated when run() returns or raises, and run() raises exactly when some
    step status is FAILED/CANCELLED. *)
@@ -90,6 +90,12 @@ Proof. exact x_run_tail_raises. Qed.
 Theorem C04_prefix_cancel_leaves_steps_refuted : forall u,
   unterminated (snd (x_run_tail x_cancel_prefix true true (mkX false u))) = u.
 Proof. exact x_prefix_leaves. Qed.
+
+(* known finding (known/C04.txt, sig net/completes/close/tg/sink): on the NORMAL path, a step that is still running
+   when the last workflow output port terminates (its own outputs are not workflow outputs) is CANCELLED by
+   close(), and run() raises although nothing failed *)
+Theorem C04_straggler_makes_run_raise_refuted : forall u, u <> 0 -> x_normal_path_raises u false = true.
+Proof. intros [|u] H; [congruence|reflexivity]. Qed.
 
 (* ---- non-vacuity and headline instances *)
 Definition ex_win : list (list tok) :=
@@ -134,3 +140,4 @@ Print Assumptions C04_terminal_status.
 Print Assumptions C04_executor_terminates_all.
 Print Assumptions C04_executor_raises_iff_bad_status.
 Print Assumptions C04_prefix_cancel_leaves_steps_refuted.
+Print Assumptions C04_straggler_makes_run_raise_refuted.
